@@ -1,11 +1,11 @@
 # Semantics of the x86-64 AT&T inline-asm subset present in the repository (scalar add/sub/mul).
 import z3, re
-from .interp import is_c, tobv, mask, binop, icmp, Unsupported, Violation, I, FV, Half, POISON
+from .interp import is_c, tobv, mask, binop, icmp, Unsupported, FieldWordOp, Violation, I, FV, Half, POISON
 
 class X86:
     def run(s, it, ins, args):
         w = it.w
-        if any(isinstance(a, (FV, Half)) for _, a in args): raise Unsupported('inline asm on a field word')
+        if any(isinstance(a, (FV, Half)) for _, a in args): raise FieldWordOp('inline asm on a field word')
         text = ins.asm[1:-1].replace('\\0A', '\n').replace('\\09', '\t').replace('$$', '\x00')
         cons = ins.constraints[1:-1].split(',')
         outs = [c for c in cons if c.startswith('=')]; ins_ = [c for c in cons if not c.startswith('=') and not c.startswith('~')]
